@@ -339,6 +339,35 @@ func (w *apiWorld) objOp(L *lua.LState, a []string) {
 		return "nil"
 	}
 	switch name {
+	case "strmeta":
+		// events on the metatable all strings share (besides the library's __index): from now on every comparison of
+		// this case runs with them; strings have primitive length, equality, order and concatenation, so the Lua
+		// expression consults none of them for string operands — and the API call must not either
+		src := "local mt = debug.getmetatable('')\n"
+		for _, ev := range a[2:] {
+			switch ev {
+			case "len":
+				src += "mt.__len = function(s) LOG[#LOG + 1] = 'slen' return 42 end\n"
+			case "concat":
+				src += "mt.__concat = function(a, b) LOG[#LOG + 1] = 'sconcat' return 'C' end\n"
+			case "eq":
+				src += "mt.__eq = function(a, b) LOG[#LOG + 1] = 'seq' return true end\n"
+			case "lt":
+				src += "mt.__lt = function(a, b) LOG[#LOG + 1] = 'slt' return true end\nmt.__le = function(a, b) LOG[#LOG + 1] = 'sle' return true end\n"
+			case "tostring":
+				src += "mt.__tostring = function(s) LOG[#LOG + 1] = 'stostring' return 'T' end\n"
+			case "call":
+				src += "mt.__call = function(s, ...) LOG[#LOG + 1] = 'scall' return 'called' end\n"
+			case "newindex":
+				src += "mt.__newindex = function(s, k, v) LOG[#LOG + 1] = 'snewindex' end\n"
+			case "off":
+				src += "for _, e in ipairs({'__len', '__concat', '__eq', '__lt', '__le', '__tostring', '__call', '__newindex'}) do mt[e] = nil end\n"
+			}
+		}
+		if err := L.DoString(src); err != nil {
+			panic(err)
+		}
+		return
 	case "gettable":
 		o, k := w.mk(L, arg(2)), w.mk(L, arg(3))
 		w.cmpGetter(L, label, func(L *lua.LState) []lua.LValue { return []lua.LValue{L.GetTable(o, k)} }, "l_gettable", 1, o, k)
@@ -563,6 +592,18 @@ func genObjOp(r *Rng) []string {
 			return Pick(r, objs)
 		}
 		return Pick(r, all)
+	}
+	if r.Chance(4) {
+		evs := []string{"obj", "strmeta"}
+		for _, e := range []string{"len", "concat", "eq", "lt", "tostring", "call", "newindex"} {
+			if r.Chance(45) {
+				evs = append(evs, e)
+			}
+		}
+		if r.Chance(15) {
+			evs = []string{"obj", "strmeta", "off"}
+		}
+		return evs
 	}
 	if r.Chance(7) { // environments, whole-table traversal, registration helpers
 		switch c := r.Intn(100); {
